@@ -19,7 +19,7 @@ structure RV where
 
 /-- Binder identity (what Rust's name resolution compares): the identifier's text. -/
 inductive Key
-  | elem (i : Nat) | tupleElem (i : Nat) | mapValue | setElem
+  | elem (i : Nat) | tupleElem (i : Nat) | mapValue | setElem | setSrc
   | fieldIdent (s : String) | fieldIndex (n : Nat) | rootValue
   deriving DecidableEq, Repr
 
@@ -28,6 +28,7 @@ def Name.key : Name → Key
   | .tupleElem i => .tupleElem i
   | .mapValue => .mapValue
   | .setElem => .setElem
+  | .setSrc => .setSrc
   | .field (.ident i) => .fieldIdent i.name
   | .field (.index n) => .fieldIndex n
   | .rootValue => .rootValue
